@@ -65,6 +65,8 @@ Pandas_  == "pandas" \in Ops /\ Obs("pandas")       \* topandas / from_data_fram
                                                     \* the driver writes into it afterwards and the pool must stay as it is (UNCHANGED pool in Obs)
 Iter_    == "iter" \in Ops /\ Obs("iter")           \* iteration over entries
 Len_     == "len" \in Ops /\ Obs("len")
+Narrow_  == "narrow" \in Ops /\ Obs("narrow")      \* a table TYPE with one column narrowed is derived from the type of table t (narrow_type, as the VCF
+                                                    \* reader does for typed INFO); the type of t is as before: rebuilding t from its own rows gives the same rows
 Row_     == "row" \in Ops /\ Obs("row")            \* t[j] for every single position j (and -1): the row itself, all columns at once
 
 \* construction converts each column to its declared type or raises: the table is rebuilt from the columns of table i, presented as
@@ -78,7 +80,7 @@ Construct_ == "construct" \in Ops /\ \E i \in DOMAIN pool : \E fm \in {"strings"
                 obs' = [kind |-> "construct", t |-> i, must_raise |-> (fm = "bad"), may_raise |-> (fm \in {"as-id", "other", "bad"})] /\
                 UNCHANGED <<pool, nfresh>>
 
-Next == Construct_ \/ Index_ \/ Concat_ \/ Replace_ \/ AddField_ \/ AddExisting_ \/ Sort_ \/ Rows_ \/ Dict_ \/ Pandas_ \/ Iter_ \/ Len_ \/ Row_
+Next == Construct_ \/ Index_ \/ Concat_ \/ Replace_ \/ AddField_ \/ AddExisting_ \/ Sort_ \/ Rows_ \/ Dict_ \/ Pandas_ \/ Iter_ \/ Len_ \/ Row_ \/ Narrow_
 Spec == Init /\ [][Next]_vars
 
 \* ---- properties
